@@ -99,7 +99,7 @@ PROPS["C03"] = {
     ],
     "require_classes": {"quick": ["life_step", "life_reject", "life_reject_cmp", "life_decode_id", "equal_limb_twin", "life_inf", "life_ctrl", "add_inf_inf", "add_inf_p", "add_p_inf", "add_p_p", "add_p_negp", "add_generic", "add_inf_altrep",
                                   "z_not_one", "alias_recv", "alias_all", "mixed_p_p", "mixed_p_negp", "mixed_inf", "dbl_inf",
-                                  "equal_true_diffrep", "equal_neg", "equal_same_y", "equal_inf_inf", "equal_p_inf", "yodd", "yeven", "inf_parity", "enc_inf",
+                                  "equal_true_diffrep", "equal_neg", "equal_same_y", "equal_collinear", "equal_inf_inf", "equal_p_inf", "yodd", "yeven", "inf_parity", "enc_inf",
                                   "chain_step"]},
     "assumptions": [
         "full-size group operations are sampled (steered representatives and relations, exact TLA+ oracle); exhaustiveness is on miniature curves",
@@ -269,7 +269,7 @@ PROPS["C09"] = {
     "drivers": [{"driver": "nonce", "trace": "Trace_Ecdsa", "shards": 16}],
     "require_classes": {"quick": ["reader_short_reads", "reader_fail_0", "reader_fail_mid", "reader_fail_31", "reader_err_with_last", "reader_ok",
                                   "same_triple", "entropy_one_byte_diff", "constant_entropy_diff_msg", "nil_rand", "wiped_import", "digest_scribbled", "sample_first", "sample_after_zero",
-                                  "sample_after_ge_n", "sample_exhausted", "sample_short", "sample_edge_accept", "drbg_multi", "drbg_vector", "rfc6979", "rfc6979_short_nonce",
+                                  "sample_after_ge_n", "sample_exhausted", "sample_short", "sample_edge_accept", "drbg_multi", "drbg_vector", "drbg_long", "rfc6979", "rfc6979_short_nonce",
                                   "inadmissible_len"]},
     "assumptions": ["statistical unbiasedness is not decided, only the structural rule (reject, never reduce; bounded retries)",
                     "a rejected candidate inside a full Sign call needs a 2^-128 event; the sampler, the DRBG and the sign step are each checked and composed only in the model"],
